@@ -487,7 +487,7 @@ PROPS = {
         "design_ref": "DESIGN.md section 4 (C03)",
         "technique": "Verus on let-regions of read_http_request (repeated Content-Length / Transfer-Encoding rejected, from the proved HeaderList "
                      "lookups), on read_request's state derivation and the body readers; complete Kani harness on the body-classification "
-                     "statement (and the same statement as a Verus region for every method string); bounded stand-in c03 for content type and Expect",
+                     "statement (and the same statement as a Verus region for every method string); the Expect and Content-Type statements as regions too; bounded stand-in c03 for the same on concrete requests",
         "level_text": "Deductive: the statements of read_http_request that look up Content-Length and Transfer-Encoding return an error whenever "
                       "two or more fields match (any list, any case mix); the Content-Length region also decides the value: no field -> None, one field that is 1*DIGIT, "
                       "non-empty and fits 64 bits -> exactly that number, anything else -> InvalidContentLength (cl_result); the Transfer-Encoding statement answers (gzip, chunked) for exactly the lists `gzip`, `chunked`, `gzip, chunked` and the empty one and refuses "
@@ -496,9 +496,10 @@ PROPS = {
                       "known-length body read consumes at most / returns exactly len bytes (C09 unit) and is exactly the next len bytes as far as they were buffered, what followed them staying in the "
                       "connection buffer for the next request (rb_exact_clause in unit conn). Bit-precise (Kani, complete): the "
                       "classification statement maps every (chunked, gzip, expect, Option<u64> length, method) to the RFC 7230 3.3.3 class. "
-                      "Bounded (never counted as proved): two-message pipelining, content type, Expect, via the "
+                      "The Expect flag is set exactly when there is one Expect field and it says 100-continue, the content type is ct_parse of the one Content-Type field (none or several: no type) -- both "
+                      "functions of the header fields alone, the fields consumed. Bounded (never counted as proved): two-message pipelining, the ContentType table, via the "
                       "real read_http_request over the header cross product.",
-        "level_note": "ContentType::parse and the Expect flag are only exercised by the bounded stand-in (cookies: unit cookiereq, C15); the split/trim/filter chain that "
+        "level_note": "The table inside ContentType::parse is only exercised by the bounded stand-in (cookies: unit cookiereq, C15); the split/trim/filter chain that "
                       "cuts the Transfer-Encoding value into items enters through a rule-S1 stand-in (te_list is uninterpreted: the contract is about the list of items, whatever the cutting; c03 compares the real chain); the regions are statements "
                       "copied verbatim into wrapper functions (the wrapper signature is the only added text).",
         "verus": ["framing", "conn", "body"],
@@ -510,11 +511,11 @@ PROPS = {
             "the let-regions are identified by the header-name literal they contain; a restructured read_http_request gives UNDECIDED and the bounded stand-in decides",
             "Kani harness: method drawn from a 10-string pool bracketing POST / PUT (prefixes, extensions, lower case)",
             "rule S1 stand-ins in the Content-Length region: `s.bytes().all(|b| b.is_ascii_digit())` -> all_ascii_digits, `s.parse()` -> parse_u64 with the assumed meaning of u64::from_str on digit-only text (non-empty and <= u64::MAX -> that value)",
-            "rule S1 in the Transfer-Encoding region: the iterator chain `opt.as_ref().map(AsciiString::as_str).unwrap_or_default().split(',').map(str::trim).filter(..)` -> te_items (the items as a Vec, so that Verus' own next() specification applies); two `&str` with the same characters are the same value (string-literal patterns)",
+            "rule S1 in the Transfer-Encoding region: the iterator chain `opt.as_ref().map(AsciiString::as_str).unwrap_or_default().split(',').map(str::trim).filter(..)` -> te_items (the items as a Vec, so that Verus' own next() specification applies); two `&str` with the same characters are the same value (string-literal patterns); Option::map_or by its definition",
             "assumed: chain_front, the contract of `(&mut FixedBuf).chain(stream)` (buffered bytes are delivered first; what was not delivered stays readable)",
         ],
         "not_covered": [
-            "ContentType::parse, Expect (bounded stand-in only); how the Transfer-Encoding value is cut into items (te_list is abstract)",
+            "the table inside ContentType::parse (ct_parse is abstract: the property only asks for a function of the field); how the Transfer-Encoding value is cut into items (te_list is abstract)",
             "that the handler-visible header list is the sent list minus the consumed fields (C14 covers the removal operations)",
         ],
     },
